@@ -530,9 +530,10 @@ class Body(object):
                     fail(b, 'Lambert-W block reads out')
             return self.lambert(s.body[0].targets[0].id, s.body[0], env, h, rest)
         # x is out
-        if isinstance(t, ast.Compare) and len(t.ops) == 1 and isinstance(t.ops[0], ast.Is) and \
+        if isinstance(t, ast.Compare) and len(t.ops) == 1 and isinstance(t.ops[0], (ast.Is, ast.IsNot)) and \
                 kind(env, t.left) == 'ref' and kind(env, t.comparators[0]) == 'ref':
-            return '(if ref_eqb %s %s then\n  %s\n else\n  %s)' % (txt(env, t.left), txt(env, t.comparators[0]), A(env), B(env))
+            a, b = (A, B) if isinstance(t.ops[0], ast.Is) else (B, A)
+            return '(if ref_eqb %s %s then\n  %s\n else\n  %s)' % (txt(env, t.left), txt(env, t.comparators[0]), a(env), b(env))
         if ts == 'out is None':                     # helper default of proj_l1: out is always supplied by the callers
             if [ast.unparse(b) for b in s.body] != ['out = x.space.element()'] or s.orelse:
                 fail(s, 'out is None')
